@@ -74,6 +74,19 @@ def build_query(n: int, pat: dict) -> tuple[str, list[str], list[tuple]]:
         sql = f"SELECT * FROM big t1 JOIN big t2 ON t1.id = t2.id WHERE t1.id < {n} ORDER BY t1.id"
         names = [x[0] for x in STAR_JOIN]
         rows = [tuple(x[1](i) for x in STAR_JOIN) for i in range(n)]
+    elif kind == "dml":
+        # the status row of a DML statement is a one-row result that obeys the same fetch discipline
+        k = min(n, 5)
+        which = pat["which"]
+        if which == "insert":
+            sql = f"INSERT INTO scratch SELECT id, v FROM big WHERE big.id < {k}"
+            names, rows = ["number of rows inserted"], [(k,)]
+        elif which == "update":
+            sql = f"UPDATE scratch SET v = v + 1 WHERE id < {k}"
+            names, rows = ["number of rows updated", "number of multi-joined rows updated"], [(k, 0)]
+        else:
+            sql = f"DELETE FROM scratch WHERE id >= 1000 AND id < {1000 + k}"
+            names, rows = ["number of rows deleted"], [(0,)]
     elif kind == "values":
         # SELECT over a VALUES clause (snowflake columnN naming)
         m = pat["m"]
@@ -111,8 +124,10 @@ def _random_pattern(r: random.Random) -> dict:
     if x < 0.8:
         m = r.randint(1, 5)
         return {"kind": "join", "items": [r.randrange(len(JOIN_ITEMS)) for _ in range(m)]}
-    if x < 0.9:
+    if x < 0.86:
         return {"kind": "starjoin"}
+    if x < 0.93:
+        return {"kind": "dml", "which": r.choice(["insert", "update", "delete"])}
     return {"kind": "values", "m": r.randint(1, 4)}
 
 
@@ -125,6 +140,9 @@ FIXED_PATTERNS = [
     {"kind": "plain", "items": [3, 8, 7]},
     {"kind": "starjoin"},
     {"kind": "values", "m": 2},
+    {"kind": "dml", "which": "update"},
+    {"kind": "dml", "which": "delete"},
+    {"kind": "dml", "which": "insert"},
 ]
 
 
@@ -184,8 +202,17 @@ def setup_worker(env: core.Env) -> None:
         "CREATE TABLE DB1.S1.BIG AS SELECT i AS ID, i*2 AS V, 's' || i AS S, i/4 AS F, (i % 2 = 0) AS B "
         f"FROM range({BIGN}) t(i)"
     )
+    raw.execute("CREATE TABLE DB1.S1.SCRATCH (ID BIGINT, V BIGINT)")
+    raw.execute("INSERT INTO DB1.S1.SCRATCH SELECT i, i FROM range(5) t(i)")
     raw.close()
     _state.update(fs=fs, conn=conn)
+
+
+def _reset_scratch() -> None:
+    raw = core.raw_root(_state["fs"]).cursor()
+    raw.execute("DELETE FROM DB1.S1.SCRATCH")
+    raw.execute("INSERT INTO DB1.S1.SCRATCH SELECT i, i FROM range(5) t(i)")
+    raw.close()
 
 
 def _eq_rows(got: list, exp: list) -> bool:
@@ -202,7 +229,7 @@ def run_case(case: dict, env: core.Env) -> None:
         use_dict = False
     cur = conn.cursor(core.DictCursor) if use_dict else conn.cursor()
     env.cover("cursor_kind", "dict" if use_dict else "tuple")
-    env.cover("pattern_kind", f"{pat['kind']}/{dup}")
+    env.cover("pattern_kind", f"{pat['kind']}/{dup}" + (f"/{pat['which']}/affected={min(n, 5) if pat['which'] != 'delete' else 0}" if pat["kind"] == "dml" else ""))
     env.cover("n_class", "0" if n == 0 else "1" if n == 1 else "2-12" if n <= 12 else "13-999" if n < 1000 else ">=1000")
 
     def conv(rs: list) -> list:
@@ -231,6 +258,8 @@ def run_case(case: dict, env: core.Env) -> None:
         env.nontrivial(("before", op, use_dict))
         return
 
+    if pat["kind"] == "dml":
+        _reset_scratch()
     cur.execute(sql)
     pos = 0
     handed = 0
@@ -246,13 +275,16 @@ def run_case(case: dict, env: core.Env) -> None:
                 pat = {"kind": "plain", "items": [0, 1, 2]}
                 sql, names, rows = build_query(n, pat)
             dup = "dup-names" if len(set(names)) != len(names) else "distinct-names"
+            if pat["kind"] == "dml":
+                _reset_scratch()
             cur.execute(sql)
             pos = 0
             continue
         if kind == "rowcount":
             env.count("cmp_rowcount")
-            if cur.rowcount != len(rows):
-                env.witness("C05/rowcount", f"rowcount={cur.rowcount} expected {len(rows)} for {sql}")
+            want_rc = rows[0][0] if pat["kind"] == "dml" else len(rows)
+            if cur.rowcount != want_rc:
+                env.witness("C05/rowcount", f"rowcount={cur.rowcount} expected {want_rc} for {sql}")
             continue
         if kind == "pandas":
             env.count("cmp_pandas")
@@ -261,7 +293,7 @@ def run_case(case: dict, env: core.Env) -> None:
                 env.witness(f"C05/pandas/shape/{dup}", f"df shape {df.shape} expected ({len(rows)},{len(names)}) {sql}")
             elif list(df.columns) != names:
                 env.witness("C05/pandas/columns", f"{list(df.columns)} expected {names}")
-            elif rows and isinstance(rows[0][0], int) and list(df.iloc[:, 0]) != [r[0] for r in rows]:
+            elif rows and isinstance(rows[0][0], int) and [int(x) for x in df.iloc[:, 0]] != [r[0] for r in rows]:
                 env.witness("C05/pandas/values", f"first column {list(df.iloc[:, 0])[:5]}.. expected {[r[0] for r in rows][:5]}")
             continue
         if kind == "one":
@@ -325,7 +357,7 @@ def run_case(case: dict, env: core.Env) -> None:
         if a is not None or b != [] or c != []:
             env.witness("C05/after-exhaustion", f"after exhaustion fetchone={a!r} fetchmany={b!r} fetchall={c!r}")
             return
-    if cur.rowcount != len(rows):
-        env.witness("C05/rowcount", f"rowcount={cur.rowcount} expected {len(rows)}")
+    if cur.rowcount != (rows[0][0] if pat["kind"] == "dml" else len(rows)):
+        env.witness("C05/rowcount", f"rowcount={cur.rowcount} for {sql}")
     if n >= 1 and handed + len(rest) >= 1:
         env.nontrivial((n, pat, use_dict, case["script"]))
